@@ -152,6 +152,23 @@ def three_hybrids_and_a_single(rng):
     return {"L": 30, "circ": False, "protos": protos, "genes": genes}
 
 
+def hybrid_chain_of_four(rng):
+    """ four protoclusters on a line of 72 linked in a chain by shared defining genes (p1-p2, p2-p3, p3-p4), where the one
+        whose neighbourhood starts first (p1), the one whose core starts first (p4) and the one whose core starts last (p3) are
+        three different ones: merging the pairs into one hybrid needs a second look at groups already passed over """
+    j = lambda: rng.choice([0, 1])      # noqa: E731
+    protos = [{"core": _span(15, 20 + j()), "extent": _span(0, 35 + j()), "product": "p1"},
+              {"core": _span(16, 53), "extent": _span(10 + j(), 56), "product": "p2"},
+              {"core": _span(50, 59 + j()), "extent": _span(45, 64 + j()), "product": "p3"},
+              {"core": _span(10 + j(), 60), "extent": _span(9, 70 + j()), "product": "p4"}]
+    genes = [{"loc": _span(16, 19), "core_for": ["p1", "p2"]},
+             {"loc": _span(50, 52), "core_for": ["p2", "p3"]},
+             {"loc": _span(53, 58), "core_for": ["p3", "p4"]}]
+    order = list(range(4))
+    rng.shuffle(order)
+    return {"L": 72, "circ": False, "protos": [protos[i] for i in order], "genes": genes}
+
+
 def observe(case):
     from .. import build as B, project as P
     from antismash.common.secmet.features import Protocluster
@@ -257,6 +274,8 @@ def run(ctx):
         cases.append({"arr": coordinate_tie(rng), "sampled": True})
     for _ in range(150 if ctx.quick else 2500):
         cases.append({"arr": neighbours_across_origin(rng), "sampled": True})
+    for _ in range(12 if ctx.quick else 200):
+        cases.append({"arr": hybrid_chain_of_four(rng), "sampled": True})
     for idx, case in enumerate(cases):
         case["id"] = idx
         count = len(case["arr"]["protos"])
